@@ -227,6 +227,32 @@ theorem C14_import_exact {t : Tab} (wf : t.WF) {tg : Nat} (htg : 0 < tg) {ops : 
   let e := import_exact wf (reach_inv wf htg h) hi
   ⟨e.1, e.2.1, e.2.2, import_no_junk (reach_inv wf htg h) hi⟩
 
+/-! ## C10 on reachable states: the requested mode is honoured, sizes and lengths are those of the content -/
+
+theorem C10_modes {t : Tab} (wf : t.WF) {tg : Nat} (htg : 0 < tg) {ops : List Op} {s : St} (h : Reach t tg ops s) :
+    (∀ r ∈ s.rows, r.size = t.size r.key ∧ (r.len = if r.z = true then t.zlen r.key else t.size r.key)) ∧
+    (∀ {m : Mode} {order : List Nat} {zs : List Bool} {cl : Bool} {s' : St}, packAll t s m order zs cl = some s' →
+        ∀ r ∈ s'.rows, r ∈ s.rows ∨ (r.key ∈ toPack s ∧ (m = .yes → r.z = true) ∧ (m = .no → r.z = false) ∧ (m = .keep → r.z = false))) ∧
+    (∀ {plan : List (Nat × List Nat × List Bool)} {s' : St}, repackAll t .yes s plan = some s' →
+        (∀ r ∈ s.rows, r.pack ∈ plan.map (·.1)) → ∀ r ∈ s'.rows, r.z = true) ∧
+    (∀ {plan : List (Nat × List Nat × List Bool)} {s' : St}, repackAll t .no s plan = some s' →
+        (∀ r ∈ s.rows, r.pack ∈ plan.map (·.1)) → ∀ r ∈ s'.rows, r.z = false) ∧
+    (∀ {plan : List (Nat × List Nat × List Bool)} {s' : St}, repackAll t .keep s plan = some s' →
+        ∀ r' ∈ s'.rows, ∃ r ∈ s.rows, r'.key = r.key ∧ r'.z = r.z ∧ r'.size = r.size ∧ r'.len = r.len) ∧
+    (∀ {m : Mode} {plan : List (Nat × List Nat × List Bool)} {s' : St}, repackAll t m s plan = some s' →
+        ∀ k, has s' k = has s k ∧ (has s k = true → getc t s' k = some k)) := by
+  have inv := reach_inv wf htg h
+  refine ⟨fun r hr => ⟨(row_size_len inv hr).1, (row_size_len inv hr).2.1⟩, fun hp r hr => packAll_new_rows inv hp r hr,
+    fun hr hall r hr' => repackAll_yes inv hr hall r hr', fun hr hall r hr' => repackAll_no inv hr hall r hr',
+    fun hr r' hr' => ?_, fun {m plan s'} hr k => ?_⟩
+  · obtain ⟨r, h1, h2⟩ := repackAll_keep inv hr r' hr'
+    exact ⟨r, h1, h2⟩
+  · have hs : step t s (.repack m plan) = some s' := hr
+    have hh := has_step wf inv hs k
+    have inv' := inv_step wf inv hs
+    refine ⟨by simpa [specHas] using hh, fun hk => getc_of_has wf inv' ?_⟩
+    rw [hh]; simpa [specHas] using hk
+
 /-! ## C04 / C15 on reachable containers: every schedule that respects the packer discipline (which the library's own
 packer programs do under every interleaving: `packAll_disciplined`, `clean_disciplined`) -/
 
